@@ -171,6 +171,32 @@ def pumped_texts(tier):
     return out
 
 
+BOUNDS_Q = [7, 8, 9, 15, 16, 17, 31, 32, 33, 63, 64, 65, 127, 128, 129, 254, 255, 256, 257, 511, 512, 513, 1023, 1024, 1025,
+            4095, 4096, 4097]
+BOUNDS_T = BOUNDS_Q + [8191, 8192, 8193, 65535, 65536, 65537]
+
+
+def ladder_texts(tier):
+    """counters, positions and lengths taken across the sizes at which a width, a buffer or a fast path would switch"""
+    out = []
+    B = BOUNDS_Q if tier == 'quick' else BOUNDS_T
+    for n in B:
+        for kind in range(6):
+            out.append(P.spell_syllables(kind, n) + '.')                     # syllable counter
+            out.append(P.KIND_NAMES[kind] + '.' * n)                         # dot counter
+            out.append(P.KIND_NAMES[kind] + '…' * n)                         # ... three at a time
+        out.append(P.spell_syllables(0, n) + ''.join('.⋯…⋮'[i % 4] for i in range(n)) + '♥')
+        out.append('형.' + '?' * n + ' 형' + '!' * n + ' 항.')                # operator counts, per command
+        out.append(' '.join(['형!' * 1] * n) + ' 형?!♥')                      # ... and summed over commands
+        out.append('형' + '♥' * n + '?' + '💕' * n)                           # redundant hearts
+        out.append('\n' * n + '형.')                                         # line number
+        out.append('a' * n + '형. 형')                                        # column, text before the first command
+        out.append('형' + '가' * n + '. 형..')                                # other text inside a command
+        out.append(' '.join(P.spell(i % 6, 1 + i % 2, i % 3, None) for i in range(n)))   # number of commands
+        out.append('\n'.join('형.' for i in range(n)))                       # ... one per line
+    return out
+
+
 def long_texts(tier):
     out = []
     for N in (100, 1000, 4096):
@@ -297,6 +323,13 @@ def run_c04(tier):
         tasks.append(('explicit', pumped[i:i + 400], False))
     for t in long_texts(tier):
         tasks.append(('explicit', [t], True))
+    ladder = ladder_texts(tier)
+    deep = [t for t in ladder if t.count('?') + t.count('!') > 200]      # deep trees: own process, no recursive rendering
+    flat = [t for t in ladder if t.count('?') + t.count('!') <= 200]
+    for i in range(0, len(flat), 30):
+        tasks.append(('explicit', flat[i:i + 30], False))
+    for i in range(0, len(deep), 8):
+        tasks.append(('explicit', deep[i:i + 8], True))
     lst = [''.join(t) for L in range(0, 4) for t in itertools.product(S16, repeat=L)]
     for i in range(0, len(lst), 300):
         tasks.append(('listing', lst[i:i + 300], 'c04-%d' % i))
@@ -314,6 +347,7 @@ def run_c04(tier):
         'scope': {'alphabets': [{'size': len(a), 'max_len': n, 'symbols': ''.join(a).replace('\n', '\\n')} for a, n in plan],
                   'strings': st.n.get('strings', 0), 'commands_compared': st.n.get('commands', 0),
                   'pumped_family_strings': len(pumped), 'long_inputs_forked': len(long_texts(tier)),
+                  'size_ladder_strings': len(ladder), 'size_ladder': BOUNDS_Q if tier == 'quick' else BOUNDS_T,
                   'check_listings': st.n.get('listings', 0), 'listing_lines': st.n.get('listing_lines', 0)},
         'samples': ['?형..♥ 하앙.', '혀가.엉…?♥❤!♡. 흑', '하앗\n 혀', '형.' + '?♥' * 3 + ' (…4096 operators)'],
     }
@@ -532,6 +566,25 @@ def pumped_lists():
     return out
 
 
+def ladder_lists(tier):
+    """counts taken across the sizes at which a width, a buffer or a fast path would switch (cf. ladder_texts)"""
+    out = []
+    B = BOUNDS_Q if tier == 'quick' else BOUNDS_T
+    for n in B:
+        for kind in (0, 3, 5):
+            out.append([CmdSpec(kind, n, '.', ['♥'])])
+            out.append([CmdSpec(kind, 1, '.' * n, ['?', '♡'])])
+            out.append([CmdSpec(kind, 2, '…' * (n // 3) + '.' * (n % 3), [])])
+        if n <= 4097:
+            out.append([CmdSpec(1, 1, '.', ['!'] * n), CmdSpec(2, 1, '', ['?'] * n), CmdSpec(0, 1, '.', ['?', '!', '♥'])])
+            out.append([CmdSpec(4, 2, '', (['♥', '?', '💕', '!'] * n)[:n])])
+        k = n // 5 + 1
+        out.append([CmdSpec(0, 1, '', ['!'] * k)] * 6 + [CmdSpec(0, 1, '', ['?', '!', '♥'])])      # operators summed over commands
+        out.append([CmdSpec(0, 1, '', ['?'] * k)] * 6 + [CmdSpec(0, 1, '', ['!', '?', '♥'])])
+        out.append([CmdSpec(i % 6, 1 + i % 2, '.' * (i % 3), ['♥'] if i % 4 == 0 else []) for i in range(n)])   # number of commands
+    return out
+
+
 def run_c08(tier):
     st = Stats()
     tasks = []
@@ -568,6 +621,9 @@ def run_c08(tier):
     pl = pumped_lists()
     for i in range(0, len(pl), 20):
         tasks.append(('rt', pl[i:i + 20], 0))
+    ll = ladder_lists(tier)
+    for i in range(0, len(ll), 12):
+        tasks.append(('rt', ll[i:i + 12], 0))
     # (b) re-parse clause on the C04 string scope
     plan = [(S16, 6), (S64, 3)] if tier == 'quick' else [(S16, 7), (S64, 4), (S10, 8)]
     for alpha, n in plan:
@@ -588,6 +644,10 @@ def run_c08(tier):
         bigf.append(pad + body)
         bigf.append(pad + body.replace('\n', ' 가나다 \n'))
     files += bigf
+    # listings with 1000+ / 4000+ lines (index width), long counts and long areas in the listing columns
+    for n in ((1025, 4097) if tier == 'quick' else (1025, 4097, 10001, 65537)):
+        files.append('\n'.join(P.spell(i % 6, 1 + i % 2, i % 3, None) + ('♥' if i % 4 == 0 else '') for i in range(n)))
+    files.append('\n'.join(P.spell_syllables(k % 6, n) + '.' * n + '♥?' * (n % 100) for k, n in enumerate(BOUNDS_Q)))
     for i in range(0, len(files), 8):
         tasks.append(('listing', files[i:i + 8], 'c08-%d' % i))
     collect(st, pmap(_c08_task, [(t,) for t in tasks]))
@@ -603,7 +663,7 @@ def run_c08(tier):
         'scope': {'single_commands': len(singles0), 'single_commands_with_1_filler': len(singles1),
                   'single_commands_with_2_fillers': len(two),
                   'lists_upto_3': len(lists3), 'lists_upto_2_with_1_filler': len(lists2),
-                  'pairs_with_2_fillers': len(pairs2), 'pumped_lists': len(pl),
+                  'pairs_with_2_fillers': len(pairs2), 'pumped_lists': len(pl), 'size_ladder_lists': len(ll),
                   'renderings': st.n.get('renderings', 0), 'skipped_stray_start_conflicts': st.n.get('skipped_stray', 0),
                   'reparse_strings': st.n.get('strings', 0),
                   'listing_files': st.n.get('listings', 0), 'listing_lines': st.n.get('listing_lines', 0)},
